@@ -161,6 +161,13 @@ func (tc *TypeConverter) TypeToExpr(t types.Type) ast.Expr {
 			Value: tc.TypeToExpr(typ.Elem()),
 		}
 	case *types.Basic:
+		if typ.Kind() == types.UnsafePointer {
+			// unsafe.Pointer is the one basic type that has to be qualified with its package
+			return &ast.SelectorExpr{
+				X:   ast.NewIdent(tc.AddImport("unsafe", "unsafe")),
+				Sel: ast.NewIdent(typ.Name()),
+			}
+		}
 		return ast.NewIdent(typ.Name())
 	case *types.Interface:
 		if typ.Empty() {
